@@ -205,6 +205,7 @@ def run(chk, facts, tier, only=None):
         chk.include(c08, "C08.R3", "C01.R7", facts)     # tagged buffers between the decoder and the Nat/Int/Principal/Func/Service visitors
         import c15
         chk.include(c15, "C15.R1", "C01.R8", facts)     # the derive macro orders fields by the same hash the runtime writes into the type table
+        chk.include(c03, "C03.R2", "C01.R9", facts)     # type-table references are written the way the header parser reads them (tables of any size decode)
 
     for rid, desc, fn in (("C01.R1", "type table and value stream use one field order (derive + hand-written impls)", r1),
                           ("C01.R2", "decoding context re-established for every component; Drop clears the flags", r2),
